@@ -63,13 +63,16 @@ RULES = {
     # (one empty per-file buffer of diffs before every buffer of matches)
     "scanNoFixU": json.dumps({"id": "c16-nofix", "language": "JavaScript", "rule": {"pattern": "foo($A)"},
                               "message": "found a call with $A"}),
+    # the ROOT node: its text ends with the file's final line break, so the end position is column 0
+    # of the line after the last one
+    "scanProgram": json.dumps({"id": "c16-program", "language": "JavaScript", "rule": {"kind": "program"}, "message": "root"}),
     "scanExpand": json.dumps({"id": "c16-expand", "language": "JavaScript", "rule": {"pattern": "foo($A)"},
                               "message": "found a call with $A",
                               "fix": {"template": "bar($A)", "expandEnd": {"regex": ";"}}}),
 }
 STYLES = ("pretty", "stream", "compact")
 # which expected-count column a command uses
-COUNT_COL = {"runA": 0, "runARGS": 1, "rewrite": 0, "scanFix": 0, "scanExpand": 0, "scanNoFixU": 0}
+COUNT_COL = {"runA": 0, "runARGS": 1, "rewrite": 0, "scanFix": 0, "scanExpand": 0, "scanNoFixU": 0, "scanProgram": 2}
 
 
 # ----------------------------------------------------------------------------------------------
@@ -383,7 +386,7 @@ def all_modes(contexts):
         for style in STYLES:
             for ctx, flags in contexts:
                 ms.append({"out": "json", "cmd": cmd, "style": style, "ctx": list(ctx), "flags": flags})
-    for cmd in ("scanFix", "scanExpand", "scanNoFixU"):
+    for cmd in ("scanFix", "scanExpand", "scanNoFixU", "scanProgram"):
         for style in STYLES:
             ms.append({"out": "json", "cmd": cmd, "style": style, "ctx": [0, 0], "flags": []})
     for cmd in ("runA", "runARGS"):
@@ -429,14 +432,14 @@ def enumerate_contents(kinds, maxlen, seen=None):
                     continue
                 seen.add(content)
                 desc = "+".join(kinds[k][0] for k in seq) + ("" if trailing else " (no final newline)")
-                out.append((content, (na, nargs), desc))
+                out.append((content, (na, nargs, 1 if content else 0), desc))  # third count: the root node (kind: program)
     return out
 
 
 COUNT_FILES = {
-    "M1": ("é; foo(2);\n", (1, 1)),
-    "M2": ("foo(1);\r\nfoo('é\U0001F980');", (2, 2)),
-    "N": ("bar(5);\n", (0, 0)),
+    "M1": ("é; foo(2);\n", (1, 1, 1)),
+    "M2": ("foo(1);\r\nfoo('é\U0001F980');", (2, 2, 1)),
+    "N": ("bar(5);\n", (0, 0, 1)),
 }
 
 
